@@ -62,11 +62,11 @@ PROPS = {
     },
     "C01": {
         "spec_ops": ["specroot"],
-        "coq_deps": ["DirFacts", "Spec", "InsertRefine"],
+        "coq_deps": ["DirFacts", "Spec", "InsertRefine", "DirRefine"],
         "steps": [{"sub": "dirs", "quick": [0], "thorough": [1]}],
         "rule": "random publish histories on the real Directory (both configurations; cached/uncached; sequential/parallel insertion; labels incl. empty, 1-byte, prefix-related and 330-byte; values incl. empty and 1500-byte; inserts, updates, re-submissions, no-op and duplicate-label batches): after every publish the full database (every node record, the epoch record, every value state) and the returned epoch hash are recomputed by the extracted model; the root hash is recomputed from the history alone by the canonical-trie specification (specroot); every lookup, key-history (Complete, MostRecent 1/n/n+3/random) and audit proof is compared structurally with the model's and its verification verdict and result with the model verifier's; ground truth from an independent version table",
-        "partial": "the refinement theorem (insertion = canonical trie over the prescribed leaves, any history, any configuration) is proved at the tree level for batches of distinct 256-bit labels; that derive_all hands such batches to the tree (non-colliding VRF outputs, one fresh / one stale label per version) is decided by the state correspondence on every run",
-        "assumptions": ["VRF outputs are an environment table produced by the implementation's primitive"],
+        "partial": "",
+        "assumptions": ["VRF outputs are an environment table produced by the implementation's primitive; theorem premises: they are well-formed canonical 256-bit labels and do not collide (C18)"],
     },
     "C02": {
         "coq_deps": ["DirFacts"],
